@@ -109,14 +109,40 @@ def oracle_noop(rng, desc, out):
     return n
 
 
-def oracle_constructor(rng, out):
+def oracle_constructor(rng, out, forced=None):
     """Building a problem keeps compatible segments, only rewrites incompatible ones (and upper-cases)."""
     import dnachisel as dc
     from dnachisel.MutationSpace import MutationSpace
     seq, descs = hard.rand_problem(rng, nmin=4, nmax=14, kmax=3)
+    known_compatible = False
+    share = rng.random() < 0.3
+    if rng.random() < 0.15:
+        # a gene (either strand) that already encodes the requested protein, frozen by a second specification given the
+        # SAME Location object: every constraint holds on the input by construction
+        from props import C07
+        back = C07.std_back()
+        m = rng.randint(1, 4)
+        protein = "".join(rng.choice(C07.AAS) for _ in range(m))
+        cds = "".join(rng.choice(sorted(back[a_])) for a_ in protein)
+        st = rng.choice([1, -1, -1])
+        left, right = hard.rand_seq(rng, rng.randint(0, 4)), hard.rand_seq(rng, rng.randint(0, 4))
+        seq = left + (cds if st == 1 else hard.rc(cds)) + right
+        loc = [len(left), len(left) + 3 * m, st]
+        descs = [dict(kind="cds", location=loc, table="Standard", start_codon=None, translation=protein),
+                 dict(kind="keep", location=list(loc))]
+        if rng.random() < 0.5:
+            descs.reverse()
+        known_compatible, share = True, True
     given = seq if rng.random() < 0.7 else seq.lower()
+    if forced is not None:
+        given, descs = forced["sequence"], forced["constraints"]
+        seq, share, known_compatible = given.upper(), bool(forced.get("shared_locations")), bool(forced.get("known_compatible"))
     try:
-        cons = [hard.build_constraint(d) for d in descs]
+        if share:
+            with hard.shared_locations():
+                cons = [hard.build_constraint(d) for d in descs]
+        else:
+            cons = [hard.build_constraint(d) for d in descs]
         if rng.random() < 0.25:
             # the same constraint objects were used before on another sequence
             try:
@@ -126,9 +152,17 @@ def oracle_constructor(rng, out):
         seed_used = rng.randint(0, 10 ** 6)
         np.random.seed(seed_used)
         p = dc.DnaOptimizationProblem(given, constraints=cons, logger=None)
-    except Exception:
+    except Exception as e:
+        if known_compatible:
+            out.append(dict(kind="constructor-raised-on-compatible-input", input=dict(sequence=given, constraints=descs, shared_locations=share, known_compatible=True),
+                            detail="every constraint holds on the input by construction, yet %s" % repr(e)[:150]))
+            return 1
         return 0
     up = given.upper()
+    if known_compatible and p.sequence != up:
+        out.append(dict(kind="constructor-changed-compatible-input", input=dict(sequence=given, constraints=descs, shared_locations=share, known_compatible=True),
+                        detail="%s -> %s although every hard constraint holds on the input by construction" % (up, p.sequence)))
+        return 1
     final = p.sequence
     ok = len(final) == len(up)
     touched = set()
@@ -237,4 +271,7 @@ def replay(ctx, case):
     if "desc" in inp:
         for s in range(20):
             oracle_noop(vlib.Rng(s), inp["desc"], out)
+    else:
+        for s in range(5):
+            oracle_constructor(vlib.Rng(s), out, forced=inp)
     return any(c["kind"] == case.get("kind") for c in out)
